@@ -249,6 +249,31 @@ def check_save_faults(mido, cs, outer, acc):
                 after_call(amb, acc, outcome, 'save',
                            dict(case, inside_handler=True))
             after_call(amb, acc, outcome, 'save', case)
+        # a charset name that does not exist / is not a string: the call is
+        # rejected on entering its scope
+        good = save_bytes(mido.MidiFile(type=1, tracks=[
+            mido.MidiTrack(m.copy() for m in base)]))
+        for badcs in ('utf_8x', 'no-such-charset', None, 5, ''):
+            for what in ('load', 'save'):
+                acc.evals += 1
+                case = {'kind': 'save-fault', 'charset': cs, 'outer': outer,
+                        'fault': f'bad-charset-name:{badcs!r}:{what}',
+                        'position': 0}
+                try:
+                    if what == 'load':
+                        load_bytes(mido, good, charset=badcs)
+                    else:
+                        mf2 = mido.MidiFile(type=1, charset=badcs, tracks=[
+                            mido.MidiTrack(m.copy() for m in base)])
+                        save_bytes(mf2)
+                    outcome = 'success'
+                except Exception:
+                    outcome = 'raised'
+                    acc.nontrivial += 1
+                    acc.count('save_faults_that_failed')
+                    after_call(amb, acc, outcome, what,
+                               dict(case, inside_handler=True))
+                after_call(amb, acc, outcome, what, case)
         # loading from a file name that does not exist / saving nowhere
         for fn_case in ('missing-file', 'no-target'):
             acc.evals += 1
@@ -314,7 +339,7 @@ def run():
         f'faults on save: a float/negative time, a real-time message, an '
         f'unencodable text as the n-th message for every n (in the first or '
         f'second track), the output file raising OSError on its k-th write '
-        f'for every k, a missing file name. After EVERY call, succeeded or '
+        f'for every k, a missing file name, charset names that do not exist or are not strings. After EVERY call, succeeded or '
         f'raised, MetaMessage("text").bytes() and from_bytes must behave as '
         f'under the ambient charset. Non-trivial = the call raised')
     rep.assumptions += ['charsets limited to the listed eight',
